@@ -4,7 +4,8 @@ import MobiusModel.Accounts
   Oracle handlers for C15.  `c15run` executes a whole history on the Accounts model
   (`Mobius.Accounts.step`, the definitions the theorems are about) and prints one observation
   per operation.  Environment: `hash` = identity on the password bytes as sent, `verify` = equality,
-  so the printed "hash" of an account is the byte string the real server must accept at login.
+  so the printed "hash" of an account is the byte string the real server must accept at login
+  (`verify` compares bcrypt keys, see `bcKey`).
 
   c15run <nameMax> <tokens…>
     A <login> <name> <pw> <access>      initial account (before the first operation)
@@ -19,7 +20,12 @@ import MobiusModel.Accounts
 namespace Oracle
 open Mobius Mobius.Accounts
 
-def envO (nameMax : Nat) : Env Bytes := ⟨id, fun h q => h == q, nameMax⟩
+/-- What a bcrypt hash depends on (golang.org/x/crypto/bcrypt): the key is the password plus a NUL
+    byte, read cyclically for 72 bytes.  For passwords without a 0x00 byte (and at most 71 bytes) this is injective,
+    i.e. `Env.Sound`; with 0x00 bytes distinct passwords can share a key ("" and the single byte 0). -/
+def bcKey (p : Bytes) : Bytes := ((List.replicate 73 (p ++ [0])).flatten).take 72
+
+def envO (nameMax : Nat) : Env Bytes := ⟨id, fun h q => bcKey h == bcKey q, nameMax⟩
 
 def acctStr (a : Account Bytes) : String := s!"{toHex a.login}:{toHex a.name}:{toHex a.access}:{toHex a.hash}"
 
